@@ -138,6 +138,23 @@ func run(r *core.Run) {
 	r.Bound("evalwalk_values", len(walkValues))
 	r.Bound("evalwalk_contexts", len(walkContexts))
 	run1("evalwalk", auxData{}, "")
+	// (e) two-step histories: mutators found by effect, refused or not, then every reader
+	r.Bound("history_profiles", histProfilesFor(thorough))
+	r.Bound("history_containers", len(histContainers()))
+	r.Bound("history_readers", len(histReaders))
+	r.Bound("history_survival_modes", len(histModes))
+	if hd := run1("hist-discover", auxData{}, ""); hd != nil {
+		keys, _ := repsOf(pl, hd)
+		muts := mutatorsFromKeys(keys)
+		var names []string
+		for _, m := range muts {
+			names = append(names, fmt.Sprintf("%s@%d", m.Fn, m.Pos))
+		}
+		r.Bound("mutators_found_by_effect", names)
+		if len(muts) > 0 {
+			run1("hist2", auxData{Muts: muts}, "muts")
+		}
+	}
 	run1("reader-depth", auxData{}, "")
 	run1("reader-depth-load", auxData{}, "")
 	// (d) level 0: every callable x every V0 tuple
